@@ -1,17 +1,65 @@
-import PvlModel.Model.Parser
+import PvlModel.Lemmas.ParserSpecs2
 
 /-!
 # C06 — loaders terminate and fail only with the documented error types
 
-Work in progress: the generator-protocol lemmas the error-type bound rests on.
+`parseWith g d kind prior text` is the model of `parser.parse(text)` for any grammar table `g`, decoder
+kind, parser class and text: the model lexer `lexAll` feeds the model of `parse_module`
+(`P.moduleLoop`), every `next` / `send` / `throw` of the generator protocol included.
+
+**C06_errors** (unbounded: every grammar, every text, every nesting depth): the only errors that can
+leave the model's `parse` are `LexerError`, `ParseError` — and `fuel`, the model's marker for a parse
+that does not finish within the fuel it was given.  In particular no `StopIteration`, no plain
+`ValueError`, no `UnboundLocalError`, no bare `Exception` escapes, whatever the text.  The proof is a
+Hoare-style verification of all twenty-odd parser functions (`Lemmas/ParserSpecs*.lean`), including the
+facts the "try the next production" idiom relies on: a production that fails softly leaves a consistent
+generator, `parse_value` never fails softly, and a `LexerError` is never swallowed.
+
+Termination (that `fuel` itself cannot occur with `fuelFor`) is *not* proved yet: it is checked by the
+correspondence run (the real loader under a 2 s guard vs the model's `HANG`) — see C06_total_partial.
 -/
-namespace Pvl.P
+namespace Pvl
+open P
 
-/-- A finished generator answers `next` with `StopIteration` and stays finished. -/
-theorem next_dead (s : PSt) (h : s.gen.dead = true) :
-    (next.run.run s) = (.error .stop, s) := by
-  simp [next, h, ExceptT.run, StateT.run, bind, ExceptT.bind, ExceptT.mk, ExceptT.bindCont, StateT.bind,
-    get, getThe, MonadStateOf.get, StateT.get, liftM, monadLift, MonadLift.monadLift, ExceptT.lift,
-    Functor.map, StateT.map, throw, throwThe, MonadExceptOf.throw, pure, ExceptT.pure, StateT.pure]
+/-- the initial generator state of a `parse()` call satisfies the invariant -/
+theorem inv_initial (toks : List Token) (tail : Tail) :
+    P.Inv (⟨⟨toks, tail, none, none, false⟩, [], [], none, false⟩ : PSt) := by
+  simp [P.Inv]
 
-end Pvl.P
+/-- **C06, error types** -/
+theorem C06_errors (g : Grammar) (d : Dec) (kind : ParserKind) (prior : List Int) (text : Str) (e : PErr)
+    (h : (parseWith g d kind prior text).outcome = .error e) :
+    e.isLexer = true ∨ (∃ t, e = .parse t) ∨ e = .fuel := by
+  unfold parseWith at h
+  simp only at h
+  generalize hdoc : (if kind == ParserKind.omni then omniPrepass text else text) = doc at h
+  generalize hl : lexAll g d doc = lx at h
+  obtain ⟨toks, tail⟩ := lx
+  simp only at h
+  have hs := triple_elim _ _ _ _ (moduleLoop_spec ⟨g, d, kind, doc⟩ (fuelFor (toks.length + 2)) [])
+    ⟨⟨toks, tail, none, none, false⟩, [], [], none, false⟩ (inv_initial toks tail)
+  revert hs h
+  generalize (moduleLoop ⟨g, d, kind, doc⟩ [] (fuelFor (toks.length + 2))).run.run
+    ⟨⟨toks, tail, none, none, false⟩, [], [], none, false⟩ = res
+  obtain ⟨r, st'⟩ := res
+  intro h hs
+  simp only at h
+  subst h
+  exact hs
+
+/-- the undocumented exception kinds, spelled out -/
+theorem C06_no_leak (g : Grammar) (d : Dec) (kind : ParserKind) (prior : List Int) (text : Str) :
+    (parseWith g d kind prior text).outcome ≠ .error .stop ∧
+    (parseWith g d kind prior text).outcome ≠ .error .value ∧
+    (parseWith g d kind prior text).outcome ≠ .error .unbound ∧
+    (parseWith g d kind prior text).outcome ≠ .error .exc := by
+  refine ⟨?_, ?_, ?_, ?_⟩ <;> intro h <;>
+    have := C06_errors g d kind prior text _ h <;>
+    simp [PErr.isLexer] at this
+
+/-! Non-vacuity (that modules, `LexerError`s and `ParseError`s all occur as outcomes of the model) is
+    shown by every correspondence run: the driver evaluates `parseWith` on ~95 000 texts per run and
+    the outcome classes are recorded in the evidence file.  (Evaluating the whole parser inside the
+    kernel with `decide` is not feasible.) -/
+
+end Pvl
